@@ -12,6 +12,21 @@ CACHING_DECORATORS = ('functools.lru_cache', 'functools.cache', 'functools.cache
 ALLOWED_GLOBAL_WRITERS = {PRMS_GLOBAL: {'ampycloud.core.set_prms', 'ampycloud.core.reset_prms'}}
 
 
+def _escapes(f) -> bool:
+    """A local function that is returned, stored or passed on outlives the call that defined it, and so do the
+    variables it closes over; one that is only called on the spot does not."""
+    par = f.parent
+    if par is None:
+        return True
+    for n in ast.walk(par.node):
+        if isinstance(n, ast.Call) and isinstance(n.func, ast.Name) and n.func.id == f.name:
+            n.func._direct_call = True
+    for n in ast.walk(par.node):
+        if isinstance(n, ast.Name) and n.id == f.name and isinstance(n.ctx, ast.Load) and not getattr(n, '_direct_call', False):
+            return True
+    return any(d for d in f.decorators)
+
+
 def module_state(ctx, rule: str) -> None:
     fx = effects(ctx)
     p = ctx.project
@@ -42,7 +57,7 @@ def module_state(ctx, rule: str) -> None:
                               f'writes module-level object {key[1]}' +
                               (f' (through {via})' if via else ''),
                               facts={'object': key[1], 'deep': deep})
-            if key[0] == 'free':
+            if key[0] == 'free' and _escapes(f):
                 ctx.violation(rule, q, e.node, e.loc(), f'writes closure variable {key[1]}')
         # (c) mutable default arguments
         a = f.node.args
